@@ -34,8 +34,15 @@ def run_one(sid, tier='quick', with_tests=False):
             return res
         r = sh(['git', '-C', tree, 'apply', os.path.join(d, 'patch.diff')])
         if r.returncode:
-            res['error'] = 'patch does not apply: ' + r.stdout[-300:]
-            return res
+            # (added) a fix commit touched the same lines: the same edit rebased, seeded/<id>/patch-rebased-on-<commit>.diff
+            for alt in sorted(f for f in os.listdir(d) if f.startswith('patch-rebased') and f.endswith('.diff')):
+                r2 = sh(['git', '-C', tree, 'apply', os.path.join(d, alt)])
+                if not r2.returncode:
+                    res['patch'] = alt
+                    break
+            else:
+                res['error'] = 'patch does not apply: ' + r.stdout[-300:]
+                return res
         env = dict(os.environ, PYTHONPATH=tree, PYTHONDONTWRITEBYTECODE='1')
         demo = os.path.join(d, 'demo.py')
         if os.path.exists(demo):
